@@ -132,7 +132,9 @@ DscTexts == {
   <<37,37,84,58,9,97,13,37,37,85,13,51,13>>,                      \* tab before the value; second comment without value
   <<37,33,80,83,13,47,97,32,49,50,32,37,32,99,10,37,37,84,58,32,97,10,37,37,85,58,32,98,10>>,  \* %!PS CR /a 12 % c LF %%T: a LF %%U: b LF
   <<49,13,50,32,51,10,37,37,84,58,32,97,10>>,                     \* 1 CR 2 3 LF %%T: a   (a bare CR, later an LF, then a comment at column 0)
-  <<49,13,10,50,13,51,10,37,37,84,58,32,97,13>>                   \* mixed line ends before the comment
+  <<49,13,10,50,13,51,10,37,37,84,58,32,97,13>>,                  \* mixed line ends before the comment
+  <<37,37,12,43,49,10>>, <<37,37,32,120,12,47,97,10>>,            \* %% without a key is a plain comment: it ends at a form feed
+  <<37,37,84,58,32,97,12,98,10,49>>                               \* a form feed inside a DSC value belongs to the value
 }
 
 VARIABLES str,     \* family bytes: the string; other families: the joined text
